@@ -548,3 +548,12 @@ PROPS['C17'] = dict(
     assumptions=['TLC; SliceOps.tla as transcription of the documentation and of the property ("capacity-clipped" = cap equals len)',
                  'exhaustive over the TLC-enumerated argument space (all lengths up to the bound, all k/n in and around the valid range, all keep patterns up to 6 elements, spare capacity 0 and 3); seeded random beyond',
                  'aliasing offsets and capacities are read with unsafe pointer arithmetic by the driver'])
+
+# --------------------------------------------------------------------------
+# C18 mapset
+PROPS['C18'] = dict(
+    mc=[dict(module='MapSetMC', cfg=('MapSetMC_q.cfg', 'MapSetMC_t.cfg'), emit=True, workers=8)],
+    trace=dict(module='MapSetTrace', cfg='MapSetTrace.cfg'),
+    assumptions=['TLC; finite sets are TLA+\'s native semantics, MapSet.tla adds nil-ness and the method effects',
+                 'exhaustive over all histories of the modelled operations over a 2 (quick) / 3 (thorough) element universe with nil, empty and non-empty operands; seeded histories over 5 elements beyond',
+                 'Pop may remove any member; the logged return value resolves the choice'])
